@@ -11,7 +11,9 @@ tools/pinned/StoreOps.lean, never an alarm; a KNOWN shape with different content
 
   validate   both `validate_entry`: a sequence of `if <cond> { return Err(StoreError::<E>); }` and
              `for <a> in <path>.ancestors().skip(1) { if <cond> { return Err(..); } }`, ended by `Ok(())` or by ONE call of
-             a sibling method of the same impl block (inlined, one level).  <cond> is a real expression translator
+             a sibling method of the same impl block (inlined, one level); the clauses are emitted in a canonical order
+             (their order decides only which error variant a doubly wrong path gets).  `let x = <expr>;` bindings are
+             substituted.  <cond> is a real expression translator
              (`!`, `&&`, `||`, `==`, `!=`, method chains over Path / OsStr / Option<&Path> / the key map / byte slices,
              closures of `any` / `is_some_and`, `Some(..)`, byte-array literals).
   cell       `Store::load_item` (nested `match` over `try_load_item` / `validate_entry` results, arm by arm),
@@ -44,7 +46,7 @@ def strip_comments(src):
     return re.sub(r"//[^\n]*", "", src)
 
 
-_TOK = re.compile(r"\s+|[A-Za-z_]\w*|\d\w*|::|&&|\|\||==|!=|=>|->|.", re.S)
+_TOK = re.compile(r"\s+|[A-Za-z_]\w*|\d\w*|::|&&|\|\||==|!=|=>|->|<=|>=|.", re.S)
 
 
 def tokens(text):
@@ -150,6 +152,9 @@ ERRS = {"EmptyPath": ".emptyPath", "PathIsAbsolute": ".pathIsAbsolute", "DirUnde
         "Subdir": ".subdir", "InvalidImage": ".invalidImage"}
 
 
+PRIO = [".emptyPath", ".pathIsAbsolute", ".subdir", ".dirUnderFile", ".invalidImage"]
+
+
 class Expr:
     """recursive-descent translator of a Rust boolean expression over the parameters of `validate_entry`.
     env: Rust variable -> (type, Lean text); types: key (raw key string, a &Path), P (component form), items, bytes"""
@@ -213,7 +218,14 @@ class Expr:
                 return ("bool", "(%s %s %s)" % (self.as_p(a), op, self.as_p(b)))
             if a[0] == "optP" and b[0] == "optP":
                 return ("bool", "(%s %s %s)" % (a[1], op, b[1]))
+            if a[0] == "nat" and b[0] == "nat":
+                return ("bool", "(%s %s %s)" % (a[1], op, b[1]))
             raise NotFound("expression: comparison of %s and %s" % (a[0], b[0]))
+        if self.peek() in ("<", ">", "<=", ">="):
+            op = self.eat()
+            b = self.p_unary()
+            return ("bool", "(decide (%s %s %s))" % (self.want(a, "nat"), {"<": "<", ">": ">", "<=": "≤", ">=": "≥"}[op],
+                                                      self.want(b, "nat")))
         return a
 
     def p_unary(self):
@@ -258,6 +270,9 @@ class Expr:
         if t == "None":
             self.eat()
             return ("optP", "(none : Option P)")
+        if t is not None and re.fullmatch(r"[0-9]+(usize)?", t):
+            self.eat()
+            return ("nat", t.replace("usize", ""))
         if t is not None and re.fullmatch(r"[A-Za-z_]\w*", t) and t in self.env:
             self.eat()
             return self.env[t]
@@ -293,6 +308,13 @@ class Expr:
                 inner = a[1]
                 # the raw key string is empty iff the path is (Lemmas/Path.parse_isEmpty_iff); the model tests the string
                 a = ("bool", "%s.isEmpty" % inner[1])
+            elif m == "len" and a[0] == "os" and a[1][0] == "key":
+                self.eat(")")
+                # bytes of the raw key (the protocol decodes one Char per byte)
+                a = ("nat", "%s.length" % a[1][1])
+            elif m == "len" and a[0] == "bytes":
+                self.eat(")")
+                a = ("nat", "%s.length" % a[1])
             elif m == "is_absolute" and a[0] in ("key", "P"):
                 self.eat(")")
                 a = ("bool", "%s.abs" % self.as_p(a))
@@ -326,7 +348,7 @@ class Expr:
                 a = ("keys", a[1])
             elif m == "any" and a[0] == "keys":
                 # the closure variable is an entry of the association list; as a path it is its key
-                v, body = self.closure("P", lambda v: "(parse %s.1)" % v)
+                v, body = self.closure("key", lambda v: "%s.1" % v)
                 self.eat(")")
                 a = ("bool", "(%s.any fun %s => %s)" % (a[1], v, body))
             else:
@@ -385,6 +407,15 @@ def clauses(body, env, what):
             out.append((translate_cond(cond, env), err_of(blk, what)))
             pos = after
             continue
+        m = re.match(r"let (\w+)=([^;{}]*);", body[pos:])
+        if m:
+            # a pure binding: the translated value is substituted where the name is used
+            env = dict(env)
+            env[m.group(1)] = Expr(m.group(2), env).parse()
+            if env[m.group(1)][0] == "os":
+                raise NotFound(what + ": binding of an OsStr")
+            pos += m.end()
+            continue
         m = re.match(r"for (\w+) in (\w+)\.ancestors\(\)\.skip\(1\)", body[pos:])
         if m:
             var, src_var = m.group(1), m.group(2)
@@ -427,6 +458,11 @@ def validate_def(ds, kind, lean_name):
         if tail2 != "Ok(())":
             raise NotFound("%s::%s: tail is not Ok(())" % (kind, m.group(1)))
         cl += cl2
+    # The clauses are pure tests followed by an early return, so their ORDER decides only WHICH error a path that
+    # violates several rules gets, never whether it is accepted (the property and the protocol do not speak about the
+    # variant).  They are emitted in a canonical order - by error variant, then by condition text - so that a
+    # reordering of independent early returns regenerates the same text; every clause is still emitted.
+    cl.sort(key=lambda ce: (PRIO.index(ce[1]), ce[0]))
     lines = ["def %s (path : Key) (items : Items) (data : Bytes) : Except Err Unit :=" % lean_name]
     for c, e in cl:
         lines.append("  if %s then .error %s else" % (c, e))
